@@ -81,20 +81,12 @@ def s1_s2(ck, an):
         ck.check(isinstance(st, ast.Assign) and fc.sym.canon(st.value) == fc.f.params[1], "ARGFLOW", "S1.stores-the-request", fc.f.short, fc.loc(n), "the entry stored is the request itself",
                  f"stored value is {fc.sym.canon(st.value) if isinstance(st, ast.Assign) else '?'}", construct=stmt_text(n))
     ck.check(len(keys) == 1, "ARGFLOW", "S1.same-key", fc.f.short, fc.f.loc, "the time list and the map use the same timestamp", f"different keys: {sorted(keys)}", construct="time key")
-    # every definition of the key is the request's time or a type conversion of itself
-    keyvars = {n.args[0].id for n in tapp if isinstance(n, ast.Call) and n.args and isinstance(n.args[0], ast.Name)}
-    for kv in keyvars:
-        for d in fc.rd.defs:
-            if d.var != kv or d.kind != "assign":
-                continue
-            v = ast.unparse(d.value)
-            ok = v == f"{fc.f.params[1]}.time" or (isinstance(d.value, ast.Call) and isinstance(d.value.func, ast.Attribute) and isinstance(d.value.func.value, ast.Name)
-                                                   and d.value.func.value.id == kv and d.value.func.attr in ("to_pydatetime", "replace") and not d.value.args and not d.value.keywords)
-            ck.check(ok, "ARGFLOW", "S3.key-is-request-time", fc.f.short, fc.loc(d.ast), "the entry is keyed by the request's time (possibly converted to datetime)",
-                     f"the key is redefined as {v}", construct=ast.unparse(d.ast))
-    if not keyvars:
-        for k in keys:
-            ck.check(f"{fc.f.params[1]}.time" in k, "ARGFLOW", "S3.key-is-request-time", fc.f.short, fc.f.loc, "the entry is keyed by the request's time", f"entry keyed by {k}", construct="time = rebalancing.time")
+    # the key is the request's time, converted to a plain datetime when it is a pandas Timestamp (value id; temporaries / helpers immaterial)
+    rp = fc.f.params[1]
+    want_key = fc.sym.canon(ast.parse(f"{rp}.time.to_pydatetime() if isinstance({rp}.time, pd.Timestamp) else {rp}.time", mode="eval").body, fc.cfg.entry.id)
+    for k in sorted(keys):
+        ck.check(k in (want_key, f"{rp}.time"), "ARGFLOW", "S3.key-is-request-time", fc.f.short, fc.f.loc, "the entry is keyed by the request's time (possibly converted to datetime)",
+                 f"the entry is keyed by {k}; specified {want_key}", construct="time = rebalancing.time")
     # S2 duplicate guard
     tests = []
     for r in raises_in(fc):
